@@ -5,7 +5,7 @@ import absint
 import pf
 import q
 from mir import Agg, Call, Const, Named, Var
-from rules.common import expect_defs, has_fact, option_blocks, result_blocks
+from rules.common import expect_defs, has_fact, loop_passes, option_blocks, result_blocks
 
 LOCATE = "detector::locate_sourcemap_reference"
 P_NEW = "//# sourceMappingURL="
@@ -224,6 +224,12 @@ def hermes_state(ctx, rule):
         for site in found.get("acc", []):
             order.append((len(b.dominators_of(site[0])), lab))
     ctx.check([l for _, l in sorted(order)] == ["column", "name", "line"], rule, fn, "order", "the segment's values are consumed in the order column, name index, line (Metro's format)", detail=str(sorted(order)))
+    # every non-empty, parsable segment yields one offset
+    pushes = [bi for bi, t in q.calls_to(b, "Vec::<T, A>::push") if q.shape(q.arg_expr(b, t, 1), roles).startswith("HermesScopeOffset{")]
+    empt = [d for d in range(len(b.blocks)) if b.blocks[d]["term"]["k"] == "switch" and d in inner and q.shape(b.expr_of_operand(b.blocks[d]["term"]["discr"])) == "str::is_empty(some(Iterator::next(var:Split<char>)))"]
+    if ctx.check(len(pushes) == 1 and len(empt) == 1, rule, fn, "push+empty-test", "one push per segment, empty segments tested once"):
+        nonempty = [tb for v, tb in b.blocks[empt[0]]["term"]["arms"] if v == 0]
+        ctx.check(bool(nonempty) and loop_passes(b, nonempty[0], inner_h, pushes), rule, fn, "segment:no-skip", "every non-empty segment that parses contributes an offset (no segment is dropped)")
     its = [sh for l in sorted(b.var_names) for sh, _, _ in q.def_shapes(b, l, roles) if sh == "Iterator::copied(slice::iter(^var:Vec<i64>))"]
     ctx.check(len(its) == 1, rule, fn, "nums-iter", "the values are read in order from the parsed segment")
     parse = [q.shape(b.expr_of_call(t)) for bi, t in b.calls() if q.nice(t.get("callee")) == "Result::ok"]
